@@ -13,17 +13,20 @@
      C04_refines_sax             one model step = zero or one step of spec/Sax.v (linear rules) between the
                                  abstractions, same labels — under the local invariant Inv
      C04_refines_sax_run         along every run on which Inv holds
-     C04_prints_admitted_partial the labels of a run are printed by a Sax execution; _partial: preservation
-                                 of Inv by steps is a premise (it follows from Typed + Topo of C01); the
-                                 execution starts from the program's own SAX configuration Sax.sax_init p
-                                 (C04_alpha_init; full statement: SaxRefine.prints_admitted_stmt)
+     C04_prints_admitted_partial the labels of a run are printed by a Sax execution from the program's own SAX
+                                 configuration Sax.sax_init p (C04_alpha_init); _partial: its premise is the
+                                 residue `tres` of C01's configuration typing at the visited configurations
+                                 (a FWD request only reaches a non-forward process waiting on its own channel;
+                                 nobody receives from a closed empty channel) — everything structural in Inv
+                                 is proved inductive (the three C04_structural_invariant theorems); full statement:
+                                 SaxRefine.prints_admitted_stmt
      C04_prints_admitted_checked(_init)  no premise: Inv is checked by `inv_b` before every step of the run
    What rests on the correspondence only: that the real interpreter's prints and their order are the
    model's (suite `run`); results for programs with drop / split / multi-provider declarations; results in
    the synchronous modes (agreement of the modes' print multisets is C03's); uniqueness of the multiset. *)
 From stdpp Require Import gmap strings.
 Require Import Grits.Base Grits.Forms Grits.STypes Grits.Runtime.
-Require Import Grits.spec.Sax Grits.proofs.Causality Grits.proofs.SaxRefine Grits.proofs.C04Examples.
+Require Import Grits.spec.Sax Grits.proofs.Causality Grits.proofs.SaxRefine Grits.proofs.SaxInv Grits.proofs.C04Examples.
 
 Theorem C04_trace_causal : forall md (p : program) fuel pick r tr,
   exec_trace fuel pick md (p_types p) (p_funs p) (init_config p) [] = (r, tr) ->
@@ -67,7 +70,30 @@ Theorem C04_refines_sax_run : forall D F c c', inv_steps D F c c' ->
   exists ls, sax_steps F false (α c) ls (α c') /\ labels c' = labels c ++ ls.
 Proof. exact refines_sax_run. Qed.
 
-Theorem C04_prints_admitted_partial : forall D F,
+(* the run-level result with the smallest premise: the structural part of Inv is proved inductive
+   (SaxInv.ginv: ginv_init, ginv_step, ginv_Inv); what remains is the residue `tres` of the configuration
+   typing at the configurations the run visits, and two decidable facts about the program *)
+Theorem C04_prints_admitted_partial : forall p : program,
+  linear_program p = true -> no_cids p = true ->
+  (forall tr c, steps Async (p_types p) (p_funs p) (init_config p) tr c -> tres (p_types p) c) ->
+  forall fuel pick, exists C',
+    sax_steps (p_funs p) false (sax_init p)
+      (labels (res_config (exec_run fuel pick Async (p_types p) (p_funs p) (init_config p)))) C'.
+Proof. exact prints_admitted_residue. Qed.
+
+Theorem C04_structural_invariant_init : forall p,
+  linear_program p = true -> no_cids p = true -> ginv (U0 p) (init_config p).
+Proof. exact ginv_init. Qed.
+
+Theorem C04_structural_invariant_step : forall U D F c self c',
+  ginv U c -> tres D c -> funs_ok F -> step Async D F c (Run self) = SStep c' ->
+  exists U' : list nat -> Prop, (forall x, U x -> U' x) /\ ginv U' c'.
+Proof. exact ginv_step. Qed.
+
+Theorem C04_structural_invariant_gives_Inv : forall U D c, ginv U c -> tres D c -> Inv D c.
+Proof. exact ginv_Inv. Qed.
+
+Theorem C04_prints_admitted_if_inv_preserved : forall D F,
   (forall c ch c', Inv D c -> step Async D F c ch = SStep c' -> Inv D c') ->
   forall (p : program) fuel pick, Inv D (init_config p) ->
   exists C', sax_steps F false (sax_init p)
@@ -95,6 +121,8 @@ Proof. exact inv_b_sound. Qed.
 (* non-vacuity, on a concrete accepted program (text in proofs/C04Examples.v), by vm_compute *)
 Example C04_ex_accepted_linear : exists p', ex_prog = Some p' /\ linear_program p' = true.
 Proof. exact ex_accepted_linear. Qed.
+Example C04_ex_no_cids : match ex_prog with Some p' => no_cids p' | None => false end = true.
+Proof. vm_compute. reflexivity. Qed.
 Example C04_ex_checked_run : checked_labels pick0 = Some ["echoed"; "done"; "succ"; "zero"].
 Proof. vm_compute. reflexivity. Qed.
 Example C04_ex_checked_run_other_schedule : checked_labels pick_last = Some ["echoed"; "done"; "succ"; "zero"].
@@ -119,6 +147,10 @@ Print Assumptions C04_hb_is_the_checks_relation.
 Print Assumptions C04_refines_sax.
 Print Assumptions C04_refines_sax_run.
 Print Assumptions C04_prints_admitted_partial.
+Print Assumptions C04_structural_invariant_init.
+Print Assumptions C04_structural_invariant_step.
+Print Assumptions C04_structural_invariant_gives_Inv.
+Print Assumptions C04_prints_admitted_if_inv_preserved.
 Print Assumptions C04_prints_admitted_checked.
 Print Assumptions C04_prints_admitted_checked_init.
 Print Assumptions C04_alpha_init.
